@@ -8,6 +8,7 @@ timestamps (SQLite answers the stored text, DuckDB ``datetime`` objects) -> ISO 
 ``parse(stmt_ast)`` drives a parser exactly like ``forml.io._input._producer.Reader._parse_statement``:
 ``with parser: statement.accept(parser); return parser.fetch()``.
 """
+import atexit
 import datetime
 import decimal
 import os
@@ -98,7 +99,8 @@ def normalise(kind, value):
 
 
 def normalise_rows(kinds, rows) -> list:
-    return [tuple(normalise(k, v) for k, v in zip(kinds, row)) for row in rows]
+    """Rows normalised by the expected kinds; a row of another width is kept whole (it is a mismatch by itself)."""
+    return [tuple(normalise(k, v) for k, v in zip(kinds, row)) + tuple(row[len(kinds):]) for row in rows]
 
 
 class Engine:
@@ -162,6 +164,16 @@ def get(name: str) -> Engine:
             _POOL.pop(old)  # inherited from the parent: just forget (closing would touch the parent's files)
         _POOL[key] = Engine(name)
     return _POOL[key]
+
+
+def _close_all():
+    for (pid, _), eng in list(_POOL.items()):
+        if pid == os.getpid():
+            eng.close()
+    _POOL.clear()
+
+
+atexit.register(_close_all)
 
 
 def both() -> list:
